@@ -535,6 +535,7 @@ type FuncContract struct {
 	Asserts  map[int][]*Clause // ghost asserts keyed by statement ordinal? (unused for now)
 	Props    []string // property ids this contract serves
 	Diag     bool     // explicit panics allowed (default true)
+	NoSafety bool // the run-time-error obligations of this function are not part of this claim (they belong to the C18 sweep)
 	CallArgs []*CallArgClause // callarg <callee>@<k> <i> <expr>: the i-th argument (0-based) of the k-th call to callee equals expr
 	GhostSets [][2]string // ghostset <name> <expr>: at every exit the ghost flag <name> of object <expr> becomes 1
 	Line     string
@@ -685,6 +686,8 @@ func parseContractText(pkg, fname, text string) (*ContractFile, error) {
 			}
 			nm, ex := splitWord(rest)
 			cur.GhostSets = append(cur.GhostSets, [2]string{nm, ex})
+		case "nosafety":
+			cur.NoSafety = true
 		case "pure":
 			cur.Pure = true
 		case "trusted":
